@@ -130,4 +130,12 @@ MUTANTS = [
     F("C04", "START of an undecoded code is not appended to the enclosing windows", TP,
       "        state[event.tid][event.eventid] = []\n        for eventid in state[event.tid]:\n            state[event.tid][eventid].append(event)",
       "        state[event.tid][event.eventid] = []\n        if event.eventid in self.trace_codes:\n            for eventid in state[event.tid]:\n                state[event.tid][eventid].append(event)\n        else:\n            state[event.tid][event.eventid].append(event)", "K3"),
+    F("C04", "string decoder collects only records with a non-zero first word into the trace's record list", "trace_handlers/trace.py",
+      "    for event in events:\n        lookup_events.append(event)\n        if event.func_qualifier & DgbFuncQual.DBG_FUNC_START.value:\n            debugid",
+      "    for event in events:\n        if event.values[0]:\n            lookup_events.append(event)\n        if event.func_qualifier & DgbFuncQual.DBG_FUNC_START.value:\n            debugid", "K12"),
+    F("C04", "a decoder hands on the window without its first record", "trace_handlers/trace.py",
+      "    event = TraceStringNewthread(events, events[0]", "    event = TraceStringNewthread(events[1:], events[0]", "K12"),
+    N("C04", "string decoder names the collected list differently and appends last", "trace_handlers/trace.py",
+      "    for event in events:\n        lookup_events.append(event)\n        if event.func_qualifier & DgbFuncQual.DBG_FUNC_START.value:\n            debugid = event.values[0]\n            str_id = event.values[1]\n            vstr += event.data[16:]\n        else:\n            vstr += event.data\n",
+      "    for event in events:\n        if event.func_qualifier & DgbFuncQual.DBG_FUNC_START.value:\n            debugid = event.values[0]\n            str_id = event.values[1]\n            vstr += event.data[16:]\n        else:\n            vstr += event.data\n        lookup_events.append(event)\n"),
 ]
